@@ -167,7 +167,15 @@ def reconcile(cfgs):
 
 
 def health(cfg, banks, slots, px, req):
-    """cfg: static bank configs; banks: dynamic bank dumps; slots: the account's positions;
+    A, L, st, _ = health_q(cfg, banks, slots, px, req)
+    return A, L, st
+
+
+def health_q(cfg, banks, slots, px, req):
+    """like health, plus the price-quantisation allowance: every price the engine uses is an I80F48 number
+    (2^-48 dollars resolution, the adapter truncates: C09), so each position's value may differ from the exact
+    rational by value * 4 * 2^-48 / price.
+    cfg: static bank configs; banks: dynamic bank dumps; slots: the account's positions;
     px: per-bank reference prices. Returns (A, L, status): status 'ok' | 'fail' (the engine must
     return an error) | 'amb' (reference undefined: confidence at its threshold, non-positive price)."""
     key = "tw" if req in ("init", "equity") else "rt"
@@ -176,19 +184,21 @@ def health(cfg, banks, slots, px, req):
     A = Fraction(0)
     L = Fraction(0)
     status = "ok"
+    quant = Fraction(0)
     for s in slots:
         k = s["bank"] - 1
         cf, bk, p = cfg[k], banks[k], px[k]
         dec = 9 if cf["tag"] == 4 else cf["decimals"]
         if s["l"] >= ONE:
             if p["err"] or p[key] == "conf":
-                return A, L, "fail"
+                return A, L, "fail", quant
             if p[key] == "amb":
                 status = "amb"
                 continue
             w = {"init": cf["lwi"], "maint": cf["lwm"], "equity": ONE}[req]
             amt = Fraction(s["l"] * bk["lsv"], ONE * ONE)
             L += amt * Fraction(w, ONE) * p[key][1] / 10 ** dec
+            quant += amt * Fraction(w, ONE) * Fraction(4, ONE) / 10 ** dec
         elif s["a"] >= ONE:
             if cf["tier"] == 1:
                 continue
@@ -197,9 +207,9 @@ def health(cfg, banks, slots, px, req):
             if p["err"]:
                 if req == "init":
                     continue
-                return A, L, "fail"
+                return A, L, "fail", quant
             if p[key] == "conf":
-                return A, L, "fail"
+                return A, L, "fail", quant
             if p[key] == "amb":
                 status = "amb"
                 continue
@@ -214,7 +224,8 @@ def health(cfg, banks, slots, px, req):
                     w = w * Fraction(cf["tavil"]) / tot
             amt = Fraction(s["a"] * bk["asv"], ONE * ONE)
             A += amt * w * lo / 10 ** dec
-    return A, L, status
+            quant += amt * w * Fraction(4, ONE) / 10 ** dec * (2 if (req == "init" and cf["tavil"] != 0) else 1)
+    return A, L, status, quant
 
 
 def tol(A, L):
@@ -409,11 +420,11 @@ def oracle_gate(tr):
             continue
         a = op[1]
         if res == "OK":
-            A, L, st = health(tr.cfg, b1, a1[a]["slots"], px, "init")
+            A, L, st, qn = health_q(tr.cfg, b1, a1[a]["slots"], px, "init")
             if st == "fail":
                 return {"key": "risk-gate-passed-with-unusable-price",
                         "what": f"{OPN[op[0]]} succeeded although a debt oracle is stale/wrong or a confidence band is too wide"}
-            if st == "ok" and A - L < -tol(A, L):
+            if st == "ok" and A - L < -(tol(A, L) + qn):
                 return {"key": "risk-gate-passed-unhealthy",
                         "what": f"{OPN[op[0]]} succeeded with init health {float(A - L)} (assets {float(A)}, liabs {float(L)})"}
             if not isolated_ok(tr.cfg, a1[a]["slots"]):
@@ -425,12 +436,12 @@ def oracle_gate(tr):
             if hyp is None:
                 continue
             slots, banks = hyp
-            A, L, st = health(tr.cfg, banks, slots, px, "init")
+            A, L, st, qn = health_q(tr.cfg, banks, slots, px, "init")
             if st != "ok":
                 continue
             unit = Fraction(3) * max((p["tw"][1] if isinstance(p.get("tw"), tuple) else 0) / 10 ** (9 if c["tag"] == 4 else c["decimals"])
                                      for p, c in zip(px, tr.cfg))
-            if res == "E6009" and A - L > 2 * tol(A, L) + unit * 2:
+            if res == "E6009" and A - L > 2 * tol(A, L) + unit * 2 + qn:
                 return {"key": "rejected-while-healthy",
                         "what": f"{OPN[op[0]]} rejected with RiskEngineInitRejected although the resulting init health would be {float(A - L)}"}
             if res == "E6029" and isolated_ok(tr.cfg, slots):
@@ -481,12 +492,12 @@ def oracle_liq(tr):
         if pa["rt"][0] <= 0 or pl["rt"][1] <= 0:
             return {"key": "liquidated-at-nonpositive-price", "what": "liquidation succeeded with a non-positive price"}
         pre = a0[liqee]["slots"]
-        A0, L0, s0 = health(tr.cfg, b1, pre, px, "maint")
-        A1, L1, s1 = health(tr.cfg, b1, a1[liqee]["slots"], px, "maint")
+        A0, L0, s0, q0 = health_q(tr.cfg, b1, pre, px, "maint")
+        A1, L1, s1, q1 = health_q(tr.cfg, b1, a1[liqee]["slots"], px, "maint")
         if s0 == "fail" or s1 == "fail":
             return {"key": "liquidated-with-unusable-price", "what": "liquidation succeeded although a position of the liquidatee has no usable price"}
         if s0 == "ok" and s1 == "ok":
-            t = tol(A0, L0) + tol(A1, L1)
+            t = tol(A0, L0) + tol(A1, L1) + q0 + q1
             if A0 - L0 > t:
                 return {"key": "liquidated-healthy-account", "what": f"liquidation succeeded on an account with maintenance health {float(A0 - L0)}"}
             if A1 - L1 > t:
@@ -502,10 +513,10 @@ def oracle_liq(tr):
             return {"key": "liquidation-flipped-collateral", "what": "seized collateral flipped into a debt"}
         if ee_a0 is None or amt * ONE > ee_a0["a"] * b1[ab]["asv"] // ONE:
             return {"key": "over-liquidation-guard", "what": "seized more than the liquidatee's collateral position"}
-        Ar, Lr, sr = health(tr.cfg, b1, a1[liqor]["slots"], px, "init")
+        Ar, Lr, sr, qr = health_q(tr.cfg, b1, a1[liqor]["slots"], px, "init")
         if sr == "fail":
             return {"key": "liquidator-unhealthy", "what": "liquidator passed although one of its debts has no usable price"}
-        if sr == "ok" and Ar - Lr < -tol(Ar, Lr):
+        if sr == "ok" and Ar - Lr < -(tol(Ar, Lr) + qr):
             return {"key": "liquidator-unhealthy", "what": f"liquidator left with init health {float(Ar - Lr)}"}
         if not isolated_ok(tr.cfg, a1[liqor]["slots"]):
             return {"key": "liquidator-isolated", "what": "liquidator left with a non-exclusive isolated debt"}
@@ -519,22 +530,33 @@ def oracle_liq(tr):
             return Fraction((s["l"] * banks[lb]["lsv"] - s["a"] * banks[lb]["asv"]) if s else 0, ONE * ONE)
         relief = net_liab(pre, b1) - net_liab(a1[liqee]["slots"], b1)
         paid = net_liab(a1[liqor]["slots"], b1) - net_liab(a0[liqor]["slots"], b1)
-        rt = q * Fraction(1, 10 ** 6) + Fraction(3)
+        # allowance = the proved rounding bound of one quantity (C05_quantity_rounding_bound), in tokens:
+        # (1 + (10^da + 1 + p_a) * 10^dl / (p_l * 10^da)) * 2^-48, plus share rounding of the wrapper legs
+        # (one share-value ulp each) and the repay-only dust threshold
+        bound = (1 + (Fraction(10) ** da + 1 + pa["rt"][0]) * 10 ** dl / (pl["rt"][1] * 10 ** da)) / ONE
+        share_ulp = Fraction(2 * (b1[lb]["lsv"] + b1[lb]["asv"]) + 4 * ONE, ONE * ONE)
+        # and the 2^-48 resolution of the two prices themselves (the adapter truncates: C09)
+        rt = bound + share_ulp + Fraction(1, 10 ** 4) + q * (Fraction(1, 10 ** 9) + Fraction(4, ONE) / pa["rt"][0] + Fraction(4, ONE) / pl["rt"][1])
         if abs(relief - q * Fraction(95, 100)) > rt:
-            return {"key": "liquidation-relief-not-95pct", "what": f"debt relief {float(relief)} vs 95% of {float(q)}"}
+            return {"key": "liquidation-relief-not-95pct", "what": f"debt relief {float(relief)} vs 95% of {float(q)} (allowance {float(rt)})"}
         if abs(paid - q * Fraction(975, 1000)) > rt:
-            return {"key": "liquidator-payment-not-97.5pct", "what": f"liquidator paid {float(paid)} vs 97.5% of {float(q)}"}
+            return {"key": "liquidator-payment-not-97.5pct", "what": f"liquidator paid {float(paid)} vs 97.5% of {float(q)} (allowance {float(rt)})"}
         moved = b0[lb]["vault"] - b1[lb]["vault"]
         got = b1[lb]["insv"] - b0[lb]["insv"]
         fee = q * Fraction(25, 1000)
-        if abs(Fraction(moved) - fee) > rt + 1:
+        if abs(Fraction(moved) - fee) > 2 * rt + 1:
             return {"key": "insurance-fee-not-2.5pct", "what": f"{moved} tokens left the vault for insurance vs 2.5% of {float(q)}"}
         if got > moved or (tr.cfg[lb]["tokprog"] != 2 and got != moved):
             return {"key": "insurance-vault-miscredited", "what": f"insurance vault received {got}, liquidity vault gave {moved}"}
         dins = Fraction(b1[lb]["ins"] - b0[lb]["ins"], ONE)
-        # the fraction of the fee goes to the outstanding insurance fees (plus whatever interest accrued)
-        if b0[lb]["last_update"] == now and not (0 <= dins < 1 and abs(Fraction(moved) + dins - fee) <= rt):
-            return {"key": "insurance-dust-wrong", "what": f"outstanding insurance fees changed by {float(dins)}"}
+        # exact split: what the liquidator paid beyond the liquidatee's relief = whole tokens moved + fraction booked
+        # (only checkable when no interest accrued inside the instruction)
+        if b0[lb]["last_update"] == now:
+            if not (0 <= dins < 1):
+                return {"key": "insurance-dust-wrong", "what": f"outstanding insurance fees changed by {float(dins)}"}
+            if abs((paid - relief) - (Fraction(moved) + dins)) > share_ulp + Fraction(2, 10 ** 4):
+                return {"key": "insurance-split-not-exact",
+                        "what": f"liquidator paid {float(paid)}, relief {float(relief)}, but vault->insurance {moved} + booked fraction {float(dins)}"}
         for k in range(tr.nb):
             if k != lb and (b1[k]["vault"], b1[k]["insv"]) != (b0[k]["vault"], b0[k]["insv"]):
                 return {"key": "liquidation-moved-other-vault", "what": f"vaults of bank {k} changed"}
